@@ -462,6 +462,8 @@ def fn(name, *args):
         sa = _single_atom(x)
         if sa and sa[0] == 1 and sa[1][0] == "fn" and sa[1][1] == "exp" and sa[2] == 1:
             return sa[1][2]
+        if sa and sa[0] == 1 and sa[1][0] == "fn" and sa[1][1] == "sqrt" and sa[2] == 1:
+            return fn("log", sa[1][2]) / 2
     elif name == "inv":
         if c is not None:
             if c == 0:
@@ -483,6 +485,9 @@ def fn(name, *args):
                     ASSUMED.add("cancellation x * (1/x) = 1 for tensor elements assumes x != 0")
             return out
     elif name == "sqrt":
+        sa = _single_atom(x)
+        if sa and sa[2] == 1 and sa[1][0] == "fn" and sa[1][1] == "exp" and sa[0] > 0:
+            return fn("sqrt", E.const(sa[0])) * fn("exp", sa[1][2] / 2)
         if c is not None and c >= 0:
             n, dn = c.numerator, c.denominator
             rn, rd = math.isqrt(n), math.isqrt(dn)
@@ -612,6 +617,7 @@ class GT(torch.Tensor):
         t._op = op
         t._owner = owner
         t._frozen = frozen
+        t._ver = 0
         return t
 
     def __init__(self, *a, **k):
@@ -695,6 +701,11 @@ def _getter(func, args):
         return self
     if pname == "grad":
         return None
+    if pname == "_version":
+        r = self
+        while r._parent is not None:
+            r = r._parent
+        return r._ver
     raise Unmodelled("tensor property without contract (symbolic shape): %s" % pname)
 
 
@@ -794,6 +805,7 @@ def write(t, nv, prim):
         if t._frozen:
             FRAME_WRITES.append((t._owner, prim))
         t._val = nv
+        t._ver += 1
         return t
     write(t._parent, _write_back(val_of(t._parent), t._op, nv), prim)
     return t
@@ -1570,30 +1582,53 @@ def _align(got, want):
 
 
 def _sizes_from_model(vc, tries):
-    """Concrete sizes (1..3) for every dimension, consistent with the path condition."""
+    """Concrete sizes for every dimension, consistent with the path condition: small random ones where the path
+    allows, otherwise the smallest the path admits (a branch taken only above some size is reached that way)."""
     names = sorted(DIMS)
     out = []
     rnd = random.Random(7)
-    for t in range(tries * 3):
+
+    def solver(hi):
         s = z3.Solver()
         s.set("timeout", 5000)
         for c in vc.pc:
             s.add(c)
         for n in names:
-            s.add(DIMS[n].z >= 1, DIMS[n].z <= 4)
-        s.push()
-        for n in names:
-            s.add(DIMS[n].z == rnd.randint(1, 3))
-        if s.check() != z3.sat:
-            s.pop()
-            if s.check() != z3.sat:
-                continue
-        m = s.model()
+            s.add(DIMS[n].z >= 1, DIMS[n].z <= hi)
+        return s
+
+    def take(m):
         sz = {n: m.eval(DIMS[n].z, model_completion=True).as_long() for n in names}
         if sz not in out:
             out.append(sz)
+    for t in range(tries * 2):
+        s = solver(3)
+        for n in names:
+            s.add(DIMS[n].z == rnd.randint(1, 3))
+        if s.check() == z3.sat:
+            take(s.model())
         if len(out) >= tries:
-            break
+            return out
+    if not out:
+        for hi in (3, 5, 9, 17, 33, 65, 129, 1025, 1 << 20):
+            o = z3.Optimize()
+            o.set("timeout", 10000)
+            for c in vc.pc:
+                o.add(c)
+            for n in names:
+                o.add(DIMS[n].z >= 1, DIMS[n].z <= hi)
+            o.minimize(z3.Sum([DIMS[n].z for n in names]))
+            if o.check() == z3.sat:
+                take(o.model())
+                # a second one with other free dimensions, if any
+                s = solver(hi)
+                for n in names:
+                    s.add(DIMS[n].z >= out[-1][n])
+                s.add(z3.Sum([DIMS[n].z for n in names]) > sum(out[-1].values()))
+                s.add(z3.Sum([DIMS[n].z for n in names]) <= sum(out[-1].values()) + 3)
+                if s.check() == z3.sat:
+                    take(s.model())
+                break
     return out
 
 
@@ -1602,7 +1637,7 @@ def _conc(d, sizes):
     return d if isinstance(d, int) else sizes[d.name]
 
 
-def draw_inputs(sizes, rnd):
+def draw_inputs(sizes, rnd, scale=1.0):
     tensors = {}
     for name, (shape, domain) in INPUTS.items():
         shp = tuple(_conc(d, sizes) for d in shape)
@@ -1612,7 +1647,7 @@ def draw_inputs(sizes, rnd):
         elif domain == "pos":
             vals = [rnd.uniform(0.2, 2.0) for _ in range(n)]
         else:
-            vals = [rnd.uniform(-1.5, 1.5) for _ in range(n)]
+            vals = [rnd.uniform(-1.5, 1.5) * scale for _ in range(n)]
         tensors[name] = np.array(vals, dtype=float).reshape(shp)
     return tensors
 
@@ -1651,8 +1686,8 @@ def check_eq(vc, name, got, want, seed=0):
     rnd = random.Random(seed)
     try:
         for sizes in _sizes_from_model(vc, 6):
-            for _ in range(4):
-                tensors = draw_inputs(sizes, rnd)
+            for trial in range(6):
+                tensors = draw_inputs(sizes, rnd, (1.0, 1.0, 3.0, 6.0, 0.3, 12.0)[trial])
                 shp = tuple(_conc(x, sizes) for x in want.shape)
                 for idx in np.ndindex(*shp):
                     env = dict(zip(ix, idx))
